@@ -213,6 +213,34 @@ class _PureBuiltin(Abstract):
         return getattr(__import__("builtins"), self.name)(*args)
 
 
+class _ARegex(Abstract):
+    """a compiled regular expression (a pure value): match / fullmatch / search on concrete strings"""
+
+    def __init__(self, rx: Any):
+        self.rx = rx
+        self.pattern = rx.pattern
+
+    def _on(self, how: str, text: Any) -> Any:
+        if not isinstance(text, str) or isinstance(text, Abstract):
+            raise Unfoldable("regular expression applied to an abstract value")
+        return getattr(self.rx, how)(text)
+
+    def match(self, text: Any) -> Any:
+        return self._on("match", text)
+
+    def fullmatch(self, text: Any) -> Any:
+        return self._on("fullmatch", text)
+
+    def search(self, text: Any) -> Any:
+        return self._on("search", text)
+
+    def __repr__(self) -> str:
+        return "re.compile(%r)" % self.pattern
+
+    def __str__(self) -> str:
+        return repr(self.rx)
+
+
 class _TypeOf(Abstract):
     """`type(x)` of an abstract instance: usable in isinstance(y, type(x)), `is`, `.__name__`, and as a constructor"""
 
@@ -1083,6 +1111,18 @@ class Folder:
         if name in ("itertools.repeat",) and len(args) == 1:
             v_ = self.fold(args[0])
             return _Repeat(v_)
+        if name in ("re.compile", "re.match", "re.fullmatch", "re.search") and args and not e.keywords:
+            vals_r = [self.fold(a) for a in args]
+            if all(isinstance(v_, (str, int)) and not isinstance(v_, Abstract) for v_ in vals_r) and isinstance(vals_r[0], str):
+                import re as _re
+
+                try:
+                    if name == "re.compile":
+                        return _ARegex(_re.compile(*vals_r))
+                    return getattr(_re, name.split(".")[1])(*vals_r)
+                except _re.error as ex:
+                    raise Unfoldable("regular expression: %s" % ex)
+            raise Unfoldable(unparse(e))
         if name in ("itertools.starmap", "starmap") and len(args) == 2:
             # f(*row) for every row; the callee expression is kept so that classes / functions of the repository are called as
             # they would be where the expression is written
